@@ -213,6 +213,14 @@ class DegEval:
             return d if last in ('min', 'max', 'minimum', 'maximum') else None
         if last == 'where' and len(args) == 3:
             return self.join(args[1], args[2], e, 'where(...)')
+        if last == 'take_along_axis' and args:
+            return args[0]
+        if last in ('put_along_axis', 'put', 'copyto', 'place', 'putmask') or (last == 'at' and f.split('.')[0] in ('numpy', 'np') and len(f.split('.')) == 3):
+            # library procedures that store values into their first argument: the container takes the join, like a subscript store
+            vals = args[2] if last in ('put_along_axis', 'put', 'place', 'putmask', 'at') and len(args) > 2 else (args[1] if len(args) > 1 else None)
+            if e.args and isinstance(e.args[0], ast.Name) and not isinstance(vals, Func):
+                s[e.args[0].id] = self.join(s.get(e.args[0].id), vals, e, '%s(...)' % last)
+            return None
         if last in ZERO_RESULT:
             return None
         if last in ('zeros', 'ones', 'empty', 'zeros_like', 'empty_like'):
